@@ -25,4 +25,20 @@ PLAN["C04"] = dict(
     level_note="Trusted: numpy searchsorted contract, FDIV64 (float floor/ceil of integer quotients), h5py dataset reads as array reads; parse_region_string assumed here (C19 bounded).",
 )
 
+PLAN["C20"] = dict(
+    targets=[f"{UT}:binnify._each", f"{UT}:get_binsize", f"{UT}:get_chromsizes"],
+    bounded=None,
+    level="proof",
+    level_text="Proof: binnify's per-chromosome generator, the bin-size inference loop (pandas groupby/unique abstraction with a symbolic set) and the chromosome-length inference are verified against the C20 statement for all tables; lemma fixed-from-widths links the loop's result to the 'every bin is [k*b, min((k+1)*b, L))' predicate.",
+    level_note="Trusted: pandas contracts (groupby on a run-sorted key, Series.unique, iloc slices, drop_duplicates(keep='last')), numpy arange/ceil (FDIV64); binnify's concat over chromosomes and the Categorical conversion are exercised by the bounded tier only.",
+)
+
+PLAN["C19"] = dict(
+    targets=[f"{UT}:parse_humanized", f"{UT}:parse_cooler_uri", f"{UT}:parse_region"],
+    bounded=None,
+    level="proof",
+    level_text="Proof of the numeric core of parse_humanized (exact scaling for every numeral value D/10^k and every listed unit spelling), of parse_cooler_uri over z3 strings (all strings), and of parse_region's defaults/bounds/refusals; the regex tokeniser of parse_region_string and the regex front of parse_humanized are outside the encoding and are covered by the grammar-exhaustive bounded tier (stated bound), which is not counted as proved.",
+    level_note="Trusted: re.split('([0-9,.]+)', numeral+unit) == ['', numeral, unit]; decimal.Decimal exact for <= 28 digits; z3 string theory for split/startswith; parse_region_string assumed in the prover (bounded tier only).",
+)
+
 NOT_APPLICABLE = {}
